@@ -184,3 +184,7 @@ func init() {
 func init() {
 	claim("C02", "N1", "N2", "N4", "N5", "N6", "N7", "F1")
 }
+
+func init() {
+	claim("C19", "B1", "B2", "B3", "B4")
+}
